@@ -459,7 +459,7 @@ func checkC05(p *Prog, r *Result, tier string) {
 	// R1
 	var jobs []exploreJob
 	for _, f := range apiRoots(p) {
-		if f.Parent() != nil {
+		if p.GoRoot[f] && (f.Parent() != nil || p.GoOnly[f]) {
 			continue
 		}
 		cl := c.Of(f)
